@@ -135,14 +135,7 @@ func BuildSchemaValidationV31(schema *base.Schema, validationString string, fiel
 				log.Printf("Validation rule 'enum' must have at least one value")
 				schema.Enum = nil
 			} else {
-				schema.Enum = make([]*yaml.Node, 0, len(enumValues))
-				for _, v := range enumValues {
-					node := &yaml.Node{
-						Kind:  yaml.ScalarNode,
-						Value: v,
-					}
-					schema.Enum = append(schema.Enum, node)
-				}
+				schema.Enum = typedEnumNodes("enum", enumValues, specType)
 			}
 		case "oneof":
 			oneofValues := strings.Fields(ruleValue)
@@ -151,53 +144,39 @@ func BuildSchemaValidationV31(schema *base.Schema, validationString string, fiel
 				continue
 			}
 
-			schema.Enum = make([]*yaml.Node, 0, len(oneofValues))
-
-			switch specType {
-			case "string":
-				for _, v := range oneofValues {
-					node := &yaml.Node{
-						Kind:  yaml.ScalarNode,
-						Value: v,
-					}
-					schema.Enum = append(schema.Enum, node)
-				}
-			case "integer":
-				for _, v := range oneofValues {
-					if _, err := strconv.ParseInt(v, 10, 64); err == nil {
-						node := &yaml.Node{
-							Kind:  yaml.ScalarNode,
-							Value: v,
-							Tag:   "!!int",
-						}
-						schema.Enum = append(schema.Enum, node)
-					} else {
-						log.Printf("Invalid integer value in oneof: %s", v)
-					}
-				}
-			case "number":
-				for _, v := range oneofValues {
-					if _, err := strconv.ParseFloat(v, 64); err == nil {
-						node := &yaml.Node{
-							Kind:  yaml.ScalarNode,
-							Value: v,
-							Tag:   "!!float",
-						}
-						schema.Enum = append(schema.Enum, node)
-					} else {
-						log.Printf("Invalid number value in oneof: %s", v)
-					}
-				}
-			default:
-				log.Printf("oneof validation for type %s might not be properly handled", specType)
-				for _, v := range oneofValues {
-					node := &yaml.Node{
-						Kind:  yaml.ScalarNode,
-						Value: v,
-					}
-					schema.Enum = append(schema.Enum, node)
-				}
-			}
+			schema.Enum = typedEnumNodes("oneof", oneofValues, specType)
 		}
 	}
+}
+
+// typedEnumNodes renders the values of an 'enum' / 'oneof' rule as YAML scalars of the schema's own type:
+// explicit strings for a string schema (so that "1" stays a string), integers and numbers for numeric schemas
+// (values that do not parse are dropped). Nil when no value applies - an empty 'enum' keyword would forbid every value.
+func typedEnumNodes(ruleName string, values []string, specType string) []*yaml.Node {
+	nodes := make([]*yaml.Node, 0, len(values))
+	for _, v := range values {
+		switch specType {
+		case "string":
+			nodes = append(nodes, &yaml.Node{Kind: yaml.ScalarNode, Value: v, Tag: "!!str"})
+		case "integer":
+			if _, err := strconv.ParseInt(v, 10, 64); err == nil {
+				nodes = append(nodes, &yaml.Node{Kind: yaml.ScalarNode, Value: v, Tag: "!!int"})
+			} else {
+				log.Printf("Invalid integer value in %s: %s", ruleName, v)
+			}
+		case "number":
+			if _, err := strconv.ParseFloat(v, 64); err == nil {
+				nodes = append(nodes, &yaml.Node{Kind: yaml.ScalarNode, Value: v, Tag: "!!float"})
+			} else {
+				log.Printf("Invalid number value in %s: %s", ruleName, v)
+			}
+		default:
+			log.Printf("%s validation for type %s might not be properly handled", ruleName, specType)
+			nodes = append(nodes, &yaml.Node{Kind: yaml.ScalarNode, Value: v})
+		}
+	}
+	if len(nodes) == 0 {
+		return nil
+	}
+	return nodes
 }
